@@ -107,6 +107,12 @@ func runC17(c *core.Ctx) *core.Violation {
 	if t.Choose(2) == 1 {
 		cfg.Sticky = 300 + t.Choose(650)
 	}
+	slowIO := t.Choose(3) == 2
+	if slowIO {
+		// slow storage: a few per cent of the tool's reads and buffered writes stall for 50 ms - 3 s, so that the run
+		// spans several progress ticks with the pipeline in every state of fullness
+		cfg.IOStall = 5 + t.Choose(60)
+	}
 	var proc *simrt.Proc
 	done := false
 	s := simrt.Run(c.TT, t, cfg, func(s *simrt.Sim) {
@@ -298,6 +304,7 @@ func init() {
 			"script bodies are printable (the aux line carries the raw text, not base64)",
 		},
 		RealVsStub: "real: run.CmdDecode (parser, N decoders, writer), rdb.DecodeDump, utils.NewRDBLoader, real input and output files; simulated: scheduling, clock, process exit",
+		FaultNames: []string{"io_stall"},
 		ProbeNames: []string{"parallel_gt1", "lua_script_line", "output_path_existed"},
 	})
 }
